@@ -1,19 +1,107 @@
 (* C15 - Metadata merge is distribution-independent; conflicts are refused cleanly.
-   Only statements here; proofs are in Proofs/MetaProofs.v; the model and the Spec
-   (same_union, contradictory, rank_names_proc) are in Emu/MetaDefs.v. *)
-From Coq Require Import ZArith List.
+   Only statements here; proofs are in Proofs/MetaProofs.v.  The model ([build], and
+   [Unfixed.build] for the code without patches/fix-c15-load-cpus.diff) and the Spec
+   ([same_union], [contradictory], [rank_names_proc]) are in Emu/MetaDefs.v.  [build]
+   takes the streams in enumeration order and returns the sorted looms / processes /
+   threads / CPUs; rows are [thread_rows] and [cpu_rows] of that. *)
+From Coq Require Import ZArith List Permutation Lia.
 From OV Require Import Emu.MetaDefs Proofs.MetaProofs.
 Import ListNotations.
 Local Open Scope Z_scope.
 
-(* The code as it is without patches/fix-c15-load-cpus.diff (model MetaDefs.Unfixed):
-   a contradiction crashes instead of being refused ... *)
+(* Same union of metadata => same outcome: the same error, or the identical hierarchy,
+   ordering and rows.  For ALL stream lists.  [rank_names_proc]: no rank is claimed by two
+   different processes; "by rank" names no order otherwise (see C15_union_rank_ties_refuted). *)
+Theorem C15_union : forall m1 m2, rank_names_proc m1 -> same_union m1 m2 -> build m1 = build m2.
+Proof. exact build_union. Qed.
+Print Assumptions C15_union.
+
+(* in particular: any stream enumeration order ... *)
+Theorem C15_union_permutation : forall m1 m2, rank_names_proc m1 -> Permutation m1 m2 -> build m1 = build m2.
+Proof. exact build_perm. Qed.
+Print Assumptions C15_union_permutation.
+
+(* ... and identical row assignments *)
+Theorem C15_union_rows : forall m1 m2 sys1, rank_names_proc m1 -> same_union m1 m2 -> build m1 = Ok sys1 ->
+  exists sys2, build m2 = Ok sys2 /\ thread_rows sys2 = thread_rows sys1 /\ cpu_rows sys2 = cpu_rows sys1.
+Proof. exact build_union_rows. Qed.
+Print Assumptions C15_union_rows.
+
+(* Every contradiction named by the property is refused: never Crash, never Ok. *)
+Theorem C15_conflicts : forall m, contradictory m -> build m = Err.
+Proof. exact build_conflicts. Qed.
+Print Assumptions C15_conflicts.
+
+(* No metadata whatsoever crashes the repaired code. *)
+Theorem C15_no_crash : forall m, build m <> Crash.
+Proof. exact build_no_crash. Qed.
+Print Assumptions C15_no_crash.
+
+(* The code as it is without the repair (MetaDefs.Unfixed, load_cpus -> loom_get_cpu before
+   cpus_array exists): a contradiction crashes instead of being refused ... *)
 Theorem C15_conflicts_refuted : exists m, contradictory m /\ Unfixed.build m = Crash.
 Proof. exact unfixed_conflict_crashes. Qed.
 Print Assumptions C15_conflicts_refuted.
 
-(* ... and two distributions of the same valid union give a crash and a system. *)
+(* ... and two distributions of one valid union give a crash and a system. *)
 Theorem C15_union_refuted :
   exists m1 m2 sys, same_union m1 m2 /\ rank_names_proc m1 /\ Unfixed.build m1 = Crash /\ Unfixed.build m2 = Ok sys.
 Proof. exact unfixed_union_crashes. Qed.
 Print Assumptions C15_union_refuted.
+
+(* Without [rank_names_proc] C15_union is false (repaired or not): two processes with the same
+   rank are ordered by stream enumeration order.  The property text does not say what the order
+   of equal ranks is; recorded, not counted as a violation. *)
+Theorem C15_union_rank_ties_refuted :
+  exists m1 m2 s1 s2, same_union m1 m2 /\ build m1 = Ok s1 /\ build m2 = Ok s2 /\ thread_rows s1 <> thread_rows s2.
+Proof. exact union_needs_distinct_ranks. Qed.
+Print Assumptions C15_union_rank_ties_refuted.
+
+(* ---- non-vacuity ---- *)
+Definition nA : name := [110; 65].   (* "nA" *)
+Definition nB : name := [110; 66].   (* "nB" *)
+(* two looms, ranks opposite to names, CPUs of nB split over two threads in descending order,
+   app id and rank of process 1000 carried by different threads *)
+Definition ex1 : list stream_meta :=
+  [ mkS nB 1000 1002 (Some 1) None None (Some [(1, 3)]);
+    mkS nB 1000 998 None (Some 0) (Some 2) (Some [(0, 7)]);
+    mkS nA 999 997 (Some 2) (Some 1) (Some 2) (Some [(0, 12); (1, 11)]) ].
+(* same union: other enumeration order, attributes on other threads, CPU list in one piece *)
+Definition ex2 : list stream_meta :=
+  [ mkS nA 999 997 (Some 2) (Some 1) (Some 2) (Some [(1, 11); (0, 12)]);
+    mkS nB 1000 998 (Some 1) None None None;
+    mkS nB 1000 1002 (Some 1) (Some 0) (Some 2) (Some [(0, 7); (1, 3)]) ].
+
+Example C15_ex_same_union : same_union ex1 ex2 /\ rank_names_proc ex1.
+Proof.
+  split.
+  - repeat split; simpl; try tauto.
+    apply perm_trans with [(nB, 1000, 998); (nB, 1000, 1002); (nA, 999, 997)]; [apply perm_swap|].
+    apply perm_trans with [(nB, 1000, 998); (nA, 999, 997); (nB, 1000, 1002)]; [apply perm_skip, perm_swap | apply perm_swap].
+  - intros k1 k2 r a b H1 H2. simpl in H1, H2.
+    destruct H1 as [H1 | [H1 | []]]; destruct H2 as [H2 | [H2 | []]]; inversion H1; inversion H2; subst; try reflexivity; discriminate.
+Qed.
+
+(* looms by minimum rank (nB first), threads by TID, CPUs by phyid, vCPU last *)
+Example C15_ex_rows :
+  exists sys, build ex1 = Ok sys /\ build ex2 = Ok sys /\
+    thread_rows sys = [(1, (nB, 1000, 998, 1)); (2, (nB, 1000, 1002, 1)); (3, (nA, 999, 997, 2))] /\
+    cpu_rows sys = [(1, (0, nB, Some (1, 3))); (2, (0, nB, Some (0, 7))); (3, (0, nB, None));
+                    (4, (1, nA, Some (1, 11))); (5, (1, nA, Some (0, 12))); (6, (1, nA, None))].
+Proof. eexists. split; [vm_compute; reflexivity|]. repeat split; vm_compute; reflexivity. Qed.
+
+Example C15_ex_contradictory :
+  let m := [mkS nA 10 11 (Some 1) None None (Some [(0, 0)]); mkS nA 10 12 None None None (Some [(0, 1)])] in
+  contradictory m /\ build m = Err /\ Unfixed.build m = Crash.
+Proof.
+  split; [|split; vm_compute; reflexivity].
+  apply C_index_two_phyids with (l := nA) (i := 0) (p := 0) (q := 1); simpl; auto. lia.
+Qed.
+
+Example C15_ex_missing_cpu :
+  let m := [mkS nA 10 11 (Some 1) None None (Some [(0, 0); (2, 2)])] in contradictory m /\ build m = Err.
+Proof.
+  split; [|vm_compute; reflexivity].
+  apply C_missing_cpu with (l := nA) (i := 2) (p := 2) (j := 1); simpl; auto; try lia.
+  intros q [H | [H | []]]; inversion H.
+Qed.
